@@ -220,6 +220,7 @@ type exec struct {
 	estEnded int   // established sessions that ended (Stop, drop, cut)
 	optSeen  int   // failed sessions whose (optional) close notification was seen
 	optOut   int   // failed sessions that dialled and whose notification is outstanding
+	optLost  int   // ... and was not seen within optionalCloseWait (it may still come, late)
 	waiters  []chan struct{}
 
 	// bookkeeping for evidence
@@ -757,24 +758,32 @@ func (x *exec) notifications(why string) *failure {
 		for x.closes.Load() < want && time.Since(t0) < optionalCloseWait {
 			time.Sleep(200 * time.Microsecond)
 		}
-		got := int(x.closes.Load() - min)
-		if got > x.optOut {
-			got = x.optOut
+	}
+	// notifications beyond the mandatory ones are attributed to failed sessions: first to
+	// those still waited for, then to those given up on earlier (they were merely late)
+	extra := int(x.closes.Load() - min)
+	for _, p := range []*int{&x.optOut, &x.optLost} {
+		a := extra
+		if a > *p {
+			a = *p
 		}
-		if got < 0 {
-			got = 0
-		}
-		x.optSeen += got
-		x.optOut -= got
-		if x.optOut > 0 {
-			x.lenient["unconfigured-session-never-notified"] = true
+		if a > 0 {
+			x.optSeen += a
+			*p -= a
+			extra -= a
 		}
 	}
-	return x.upperBound(why)
+	if x.optOut > 0 {
+		// waited once; never again for these
+		x.optLost += x.optOut
+		x.optOut = 0
+		x.lenient["unconfigured-session-never-notified"] = true
+	}
+	return nil
 }
 
 func (x *exec) upperBound(why string) *failure {
-	max := x.estEnded + x.optSeen + x.optOut
+	max := x.estEnded + x.optSeen + x.optOut + x.optLost
 	if n := int(x.closes.Load()); n > max {
 		return hard("%s: %d close notifications for %d ended sessions that reached a connection (%d established): a session was notified twice, or a session that is still up was notified", why, n, max, x.estEnded)
 	}
@@ -785,7 +794,10 @@ func (x *exec) settleUp(why string) *failure {
 	if f := x.notifications(why); f != nil {
 		return f
 	}
-	return x.checkUpLink(why)
+	if f := x.checkUpLink(why); f != nil {
+		return f
+	}
+	return x.upperBound(why)
 }
 
 // settleIdle: after a failed start, a lost connection or a stop, waiting returns, the close
@@ -805,6 +817,9 @@ func (x *exec) settleIdle(why string) *failure {
 	}
 	x.waiters = nil
 	if f := x.notifications(why); f != nil {
+		return f
+	}
+	if f := x.upperBound(why); f != nil {
 		return f
 	}
 	if l := x.lastLink(); l != nil {
@@ -905,7 +920,7 @@ func (x *exec) epilogue() *failure {
 	if f := x.upperBound("end"); f != nil {
 		return f
 	}
-	if x.optOut == 0 {
+	if x.optOut+x.optLost == 0 {
 		if n, want := int(x.closes.Load()), x.estEnded+x.optSeen; n != want {
 			return hard("end: %d close notifications, expected exactly %d", n, want)
 		}
@@ -945,6 +960,13 @@ func execOnce(c C16Case) (out ev.Outcome, f *failure) {
 		}
 	}
 	out.History = histOut{Steps: x.hist, Stacks: x.stacks}
+	if os.Getenv("VERIF_DEV") != "" {
+		for _, s := range x.hist {
+			if s.Ms > 100 {
+				fmt.Fprintf(os.Stderr, "SLOW %+v\n   case %s\n", s, ev.Snapshot(c))
+			}
+		}
+	}
 	out.NonTrivial = nontrivial
 	primary := "trivial"
 	if nontrivial {
